@@ -56,11 +56,19 @@ class _Body(object):
     """A response body as urlopen() gives it: read() returns everything that is left, read(n) at most n bytes -
     and, like a socket, possibly fewer (`piece`), so that a multi-byte character may straddle two reads."""
 
-    def __init__(self, data, read_error=False, piece=0):
+    def __init__(self, data, read_error=False, piece=0, headers=None):
         self._data = data
         self._pos = 0
         self._read_error = read_error
         self._piece = piece
+        self.headers = dict(headers or {"Content-Type": "application/json"})      # what the server said
+        self.status = 200
+
+    def info(self):
+        return self.headers
+
+    def getheader(self, name, default=None):
+        return self.headers.get(name, default)
 
     def read(self, size=-1):
         if self._read_error and (self._pos > 0 or size is None or size < 0 or not self._data):
@@ -87,11 +95,12 @@ class _Resp(object):
     """A requests.Response as far as callers of .json() can tell; .url is the FINAL url (after redirects and
     requests' own URL preparation), which need not be the one that was asked for."""
 
-    def __init__(self, thunk, url=None):
+    def __init__(self, thunk, url=None, headers=None):
         self._thunk = thunk
         self.url = url
         self.status_code = 200
         self.history = []
+        self.headers = dict(headers or {"Content-Type": "application/json"})
 
     def json(self):
         return self._thunk()
@@ -196,7 +205,7 @@ class SimTransport(object):
         doc = self._serve("urlopen", u) if kind is None else None
         piece = (p or {}).get("piece", 0)
         if kind is None:
-            return _Body(json.dumps(doc, ensure_ascii=False).encode("utf-8"), piece=piece)
+            return _Body(json.dumps(doc, ensure_ascii=False).encode("utf-8"), piece=piece, headers=(p or {}).get("headers"))
         self.log.append(("urlopen", u, "fail"))
         self._fire(kind)
         if u in self.docs:
@@ -235,7 +244,7 @@ class SimTransport(object):
         doc = t._serve("requests", u)
         if (p or {}).get("final_url"):
             t._fire("response_url_differs_from_request")
-        return _Resp(lambda: doc, url=(p or {}).get("final_url") or uri)
+        return _Resp(lambda: doc, url=(p or {}).get("final_url") or uri, headers=(p or {}).get("headers"))
 
     def requests_module(self):
         mod = types.ModuleType("requests")
